@@ -1,8 +1,58 @@
 """C19 — see DESIGN.md §4."""
-from ..spec import run_specs
+from ..spec import run_specs, extract
+from ..specs_registry import SPECS
 
-EXPLANATION = 'Edge-kind agreement: the attribute/operation variants for which conversion creates an entry reference are a subset of those the filter follows; per-variant fingerprints of the filter equal the reviewed tables. Closure/minimality over all graphs is NOT decided.'
+EXPLANATION = ("Edge-kind agreement: the attribute/operation variants for which conversion creates an entry reference are a subset of those "
+               "the filter follows (a reference the filter does not follow leaves the output with a dangling reference or makes the conversion fail); "
+               "per-variant fingerprints of the filter's edge collectors equal the reviewed tables. Closure/minimality over all graphs is NOT decided.")
+
+REF_CONVERTERS = {'convert_unit_ref', 'convert_debug_info_ref'}
+
+
+def run_edge_agreement(rep, g):
+    rep.rule('X-edges', 'edge-kind agreement: every read::Operation / read::AttributeValue variant whose conversion calls '
+             'convert_unit_ref / convert_debug_info_ref (i.e. produces a reference to an entry) is followed by the filter '
+             '(its arm in add_expression_refs / add_attribute_refs pushes a dependency)')
+    S = {s['id']: s for s in SPECS}
+    conv = extract(g, S['convert_expression'])
+    filt = extract(g, S['filter_expr_refs'])
+    fn = g.fn(S['filter_expr_refs']['fn'])
+    n = 0
+    for v in sorted(conv):
+        calls = set(conv[v]['calls'])
+        if not (calls & REF_CONVERTERS):
+            continue
+        n += 1
+        f = filt.get(v, {'calls': []})
+        follows = 'push' in f['calls']
+        nested = 'operations' in calls      # nested expression converted recursively
+        key = 'expr-ref|' + v
+        if follows and not nested:
+            rep.ok('X-edges', key, 'conversion calls %s; filter arm calls %s' % (sorted(calls & REF_CONVERTERS), f['calls']), fn.loc(),
+                   why='filter pushes the referenced entry')
+        elif nested and 'add_expression_refs' not in f['calls'] and not follows:
+            rep.bad('X-edges', key, 'Operation::%s holds a nested expression that conversion converts (references included) but the filter does not scan' % v, fn.loc())
+        else:
+            rep.bad('X-edges', key, 'Operation::%s is converted with %s but add_expression_refs has no arm that follows the reference'
+                    % (v, sorted(calls & REF_CONVERTERS)), fn.loc())
+    rep.floor('X-edges', 'operation variants that carry entry references', n, 8)
+    # attributes: variants reaching convert_expression / convert_*_ref in convert_attribute_value
+    conva = extract(g, S['convert_attr_value'])
+    filta = extract(g, S['filter_attr_refs'])
+    fna = g.fn(S['filter_attr_refs']['fn'])
+    m = 0
+    for v in sorted(conva):
+        calls = set(conva[v]['calls'])
+        if not (calls & (REF_CONVERTERS | {'convert_expression', 'convert_location_list'})):
+            continue
+        m += 1
+        f = filta.get(v, {'calls': []})
+        rep.check('X-edges', 'attr-ref|' + v, 'push' in f['calls'] or 'add_expression_refs' in f['calls'] or 'operations' in f['calls'],
+                  'AttributeValue::%s: conversion calls %s; filter arm calls %s' % (v, sorted(calls), f['calls']), fna.loc(),
+                  why='filter follows the reference / scans the expression')
+    rep.floor('X-edges', 'attribute variants that carry references', m, 4)
 
 
 def run(rep, ctx):
     run_specs(rep, ctx, 'C19')
+    run_edge_agreement(rep, ctx.g)
